@@ -7,7 +7,8 @@ EXPLANATION = ("Decides on the MIR of the current tree: who may wake a waiting t
                "park token (S4, S8), block/wake pairing (S7), the notify/unpark happens-before edges (Y1), the order of steps in Condvar::wait "
                "(W1), that notify_one/notify_all unpark exactly the popped/drained waiters (W2), the park-token machine of rt::park and "
                "Thread::set_unparked (W3), the writers of the Notify flags incl. the at-most-one spurious return (W4) and the wiring of "
-               "spawn/join/block_on to their Notify (W5). Lost or misdirected wake-ups as behaviour over all interleavings are not decided.")
+               "spawn/join/block_on to their Notify (W5). Lost or misdirected wake-ups as behaviour over all interleavings are not decided."
+               " The notification flag is consumed on every non-spurious return and only where the acquire follows (W4 pairing); G0/G1 cross-check wake/unpark/notify/wait.")
 RULE_TEXT = "rule instances = wake/transition sites, ordered steps, flag writers; non-trivial when matched to concrete MIR sites"
 LEVEL_NOTE = "necessary conditions only"
 
